@@ -282,7 +282,12 @@ class State:
         return tree
 
 
-def evaluate(view, events, where=None, partial=False):
+def evaluate(view, events, where=None, partial=False, packages=None):
+    """packages: {importable package name: schema-description fragment} for '%import' lines;
+    an import extends the vocabulary from that line on, for this evaluation only"""
+    if packages is not None:
+        view = view.clone()
+    imported = []
     """where: per-event line numbers (from linegrammar.parse(want_lines=True)); when given a
     rejection is reported as ('reject', lineno, what, offending_value)"""
     def at(i):
@@ -312,7 +317,19 @@ def evaluate(view, events, where=None, partial=False):
                 value = child.finish(at(i))
                 cur, idx = stack.pop()
                 cur.add_section(idx, child.secname, value, at(i))
-            elif ev[0] in ('import', 'include'):
+            elif ev[0] == 'import':
+                if packages is None:
+                    raise Any()
+                pk = None
+                for name in packages:
+                    if ev[1] == name:
+                        pk = name
+                if pk is None:
+                    raise Reject(at(i), 'bad-import')
+                if pk not in imported:
+                    imported.append(pk)
+                    view.add_component(packages[pk])
+            elif ev[0] == 'include':
                 raise Any()
         if partial:
             return ('ok', None)       # the text goes on (or fails) after these events
